@@ -65,3 +65,55 @@ Proof.
   eexists. split; [reflexivity|].
   rewrite lenZ_takeZ; [reflexivity|]. rewrite lenZ_dropZ by nia. nia.
 Qed.
+(** The references to blocks k, k+1, ..., count-1 of the generator's
+    signature, in order, denote the basis from byte k * blockLength on. *)
+Lemma denote_refs_suffix basis :
+  let h := sum_sizes_sqroot (lenZ basis) in
+  forall m k, Z.of_nat k + Z.of_nat m = h_count h ->
+    denote basis h (map (fun j => Ref (Z.of_nat j)) (seq k m)) =
+    Some (dropZ (Z.of_nat k * h_blen h) basis).
+Proof.
+  intros h.
+  pose proof (lenZ_nonneg basis) as Hn.
+  destruct (sqroot_blocks_tile (lenZ basis) Hn) as (Hin & Hfull & Hlast & Hzero). fold h in Hin, Hfull, Hlast, Hzero.
+  assert (Hb : 700 <= h_blen h) by (unfold h, sum_sizes_sqroot, c_blockSize; cbn [h_blen]; lia).
+  induction m as [|m IH]; intros k Hk.
+  - cbn [seq map denote]. rewrite dropZ_all; [reflexivity|].
+    destruct (Z.eq_dec (lenZ basis) 0) as [E|E].
+    + lia.
+    + destruct (Hlast ltac:(lia)) as [Hc1 He].
+      specialize (Hin (h_count h - 1) ltac:(lia)). nia.
+  - cbn [seq map denote].
+    rewrite (IH (S k)) by lia.
+    assert (Hki : 0 <= Z.of_nat k < h_count h) by lia.
+    destruct (Hin _ Hki) as [Hl Hi].
+    unfold ref_bytes, sub.
+    replace ((0 <=? Z.of_nat k * h_blen h) && (0 <=? block_len h (Z.of_nat k)) &&
+             (Z.of_nat k * h_blen h + block_len h (Z.of_nat k) <=? lenZ basis)) with true
+      by (symmetry; rewrite !andb_true_iff, !Z.leb_le; nia).
+    f_equal.
+    replace (Z.of_nat (S k) * h_blen h) with (Z.of_nat k * h_blen h + h_blen h) by lia.
+    destruct (Z.eq_dec (Z.of_nat k) (h_count h - 1)) as [E|E].
+    + (* last block: it runs to the end of the basis *)
+      destruct (Hlast ltac:(nia)) as [_ He]. rewrite <- E in He.
+      rewrite takeZ_all by (rewrite lenZ_dropZ by nia; lia).
+      rewrite (dropZ_all (Z.of_nat k * h_blen h + h_blen h)) by lia.
+      apply app_nil_r.
+    + rewrite (Hfull (Z.of_nat k)) by lia.
+      rewrite <- (dropZ_dropZ (h_blen h) (Z.of_nat k * h_blen h)) by nia.
+      apply takeZ_app_dropZ.
+Qed.
+
+(** The blocks tile the basis: referencing every block of the generator's
+    signature once, in order, denotes exactly the basis. *)
+Lemma denote_all_refs basis :
+  let h := sum_sizes_sqroot (lenZ basis) in
+  denote basis h (map (fun j => Ref (Z.of_nat j)) (seq 0 (Z.to_nat (h_count h)))) = Some basis.
+Proof.
+  intros h.
+  assert (Hc : 0 <= h_count h).
+  { unfold h, sum_sizes_sqroot, c_blockSize. cbn [h_count]. pose proof (lenZ_nonneg basis).
+    apply Z.div_pos; lia. }
+  pose proof (denote_refs_suffix basis (Z.to_nat (h_count h)) 0%nat) as Hs. cbv zeta in Hs. fold h in Hs.
+  rewrite Hs by lia. cbn [Z.of_nat]. rewrite Z.mul_0_l, dropZ_0. reflexivity.
+Qed.
